@@ -26,7 +26,6 @@ package memefish
 // @ unproved pf memefish.(*Parser).parsePropertyGraphLabelAndPropertiesList -- C05 position clause not yet discharged for this function (needs a contract for a helper that returns positions, or a loop invariant over positions)
 // @ unproved pf memefish.(*Parser).parseQuery -- C05 position clause not yet discharged for this function (needs a contract for a helper that returns positions, or a loop invariant over positions)
 // @ unproved range memefish.(*Parser).parseQueryExpr -- C05 position clause not yet discharged for this function (needs a contract for a helper that returns positions, or a loop invariant over positions)
-// @ unproved pf,range memefish.(*Parser).parseQueryExprSuffix -- C05 position clause not yet discharged for this function (needs a contract for a helper that returns positions, or a loop invariant over positions)
 // @ unproved range memefish.(*Parser).parseScalarSchemaType -- C05 position clause not yet discharged for this function (needs a contract for a helper that returns positions, or a loop invariant over positions)
 // @ unproved pf memefish.(*Parser).parseSelect -- C05 position clause not yet discharged for this function (needs a contract for a helper that returns positions, or a loop invariant over positions)
 // @ unproved pf,range memefish.(*Parser).parseSimpleArrayLiteral -- C05 position clause not yet discharged for this function (needs a contract for a helper that returns positions, or a loop invariant over positions)
@@ -34,7 +33,6 @@ package memefish
 // @ unproved pf,range memefish.(*Parser).parseStructType -- C05 position clause not yet discharged for this function (needs a contract for a helper that returns positions, or a loop invariant over positions)
 // @ unproved pf,range memefish.(*Parser).parseTVFCallExpr -- C05 position clause not yet discharged for this function (needs a contract for a helper that returns positions, or a loop invariant over positions)
 // @ unproved pf,range memefish.(*Parser).parseTablePrivilege -- C05 position clause not yet discharged for this function (needs a contract for a helper that returns positions, or a loop invariant over positions)
-// @ unproved pf,range memefish.(*Parser).parseUnnestSuffix -- C05 position clause not yet discharged for this function (needs a contract for a helper that returns positions, or a loop invariant over positions)
 // @ unproved pf,range memefish.parseStatements -- C05 position clause not yet discharged for this function (needs a contract for a helper that returns positions, or a loop invariant over positions)
 // @ unproved pfl memefish.(*Parser).parseSelector -- C05: position soundness of the Path extended in place (e.Idents = append(...)) is not discharged within the time limit
 // @ unproved range memefish.(*Parser).parseAlterSequence -- C05 position clause not yet discharged for this function
@@ -44,3 +42,6 @@ package memefish
 // @ unproved range memefish.(*Parser).parsePropertyGraphLabelAndPropertiesList -- C05 position clause not yet discharged for this function
 // @ unproved range memefish.(*Parser).parseQuery -- C05 position clause not yet discharged for this function
 // @ unproved range memefish.(*Parser).parseSelect -- C05 position clause not yet discharged for this function
+// @ unproved pf memefish.(*Parser).parseTableExprSuffix -- C05 position clause not yet discharged for this function
+// @ unproved range memefish.(*Parser).parseTableExprSuffix -- C05 position clause not yet discharged for this function
+// @ unproved pfq memefish.(*Parser).parseQueryExpr -- C05: position soundness of the compound query extended in place (c.Queries = append(...)) is not discharged within the time limit
